@@ -49,7 +49,15 @@ package partitions
 // Owner panics on a partition without owners; after bootstrap every partition has one (structural assumption,
 // the routing table push establishes it - see routingtable contracts).
 //@ func (p *Partition) Owner() discovery.Member
-//@   props C15 C13
+//@   props C15 C13 C07
 //@   trusted
 //@   requires #recv: p != nil
+//@   ensures #who: result.NameHash == uf(owner_namehash, Int, p)
+//@   modifies nothing
+
+// The hash of (dmap name, key) is an uninterpreted function of the two strings.
+//@ func HKey(name, key string) uint64
+//@   props C07
+//@   trusted
+//@   ensures #hash: result == uf(hkey, Int, name, key)
 //@   modifies nothing
